@@ -1,4 +1,5 @@
 import Ysgo.Lemmas.MarkupTail
+import Ysgo.Lemmas.MarkupPropsSim
 import Ysgo.Props.C15
 /-!
 # C13 — markup parsing recovers the plain text and exactly the enclosed ranges
@@ -17,11 +18,11 @@ open Ysgo.Unicode Ysgo.MarkupSpec
 theorem inv_init (input : List Char) : Inv {} input {} { rest := input, src := 0, pos := 0 } :=
   ⟨rfl, by simp, by simp, by simp [isSpace_nul], ⟨[], rfl, fun _ => rfl⟩⟩
 
-/-- C13.1 `parse_render_core`: for every list of core chunks for which the specification prescribes a result (i.e. every
-close marker has an open marker to close) parsing the rendered line yields exactly that result — text, attribute names,
-positions, lengths, source positions, order — from every incoming parser state -/
-theorem parse_render_core (st : ParserState) (cs : List Chunk) (hc : ∀ c ∈ cs, isCore c = true) (r : ParseResult)
-    (he : expected cs = some r) : (parseRunes st (render cs)).2 = .ok r := by
+/-- the common part of C13.1 and C13.2: if the main loop simulates every chunk of the list, parsing the rendered line yields
+what the specification prescribes -/
+theorem parse_render_of_sim (st : ParserState) (cs : List Chunk)
+    (hsim : ∀ c ∈ cs, StepSim ((render cs).length + 1) c) (r : ParseResult) (he : expected cs = some r) :
+    (parseRunes st (render cs)).2 = .ok r := by
   unfold expected at he
   simp only [bind, Option.bind] at he
   cases hfold : cs.foldlM stepChunk {} with
@@ -29,7 +30,8 @@ theorem parse_render_core (st : ParserState) (cs : List Chunk) (hc : ∀ c ∈ c
   | some S' =>
     simp only [hfold, pure, Option.some.injEq] at he
     obtain ⟨n, st', s', hinv, hn, hrun⟩ :=
-      sim_fold (render cs).length cs {} S' {} { rest := render cs, src := 0, pos := 0 } hc (inv_init _) hfold
+      sim_fold_gen ((render cs).length + 1) cs {} S' {} { rest := render cs, src := 0, pos := 0 } hsim
+        (by simp only []; omega) (inv_init _) hfold
     have hrun' := hrun ((render cs).length - n)
     have hfuel : (render cs).length - n + 1 + n = (render cs).length + 1 := by
       have : n ≤ (render cs).length := hn
@@ -44,6 +46,33 @@ theorem parse_render_core (st : ParserState) (cs : List Chunk) (hc : ∀ c ∈ c
     rw [← he]
     simp only [sortStable_eq, specCharacter, hinv.out, trimSpace_eq, trimLeftLen]
     rfl
+
+/-- C13.1 `parse_render_core`: for every list of core chunks for which the specification prescribes a result (i.e. every
+close marker has an open marker to close) parsing the rendered line yields exactly that result — text, attribute names,
+positions, lengths, source positions, order — from every incoming parser state -/
+theorem parse_render_core (st : ParserState) (cs : List Chunk) (hc : ∀ c ∈ cs, isCore c = true) (r : ParseResult)
+    (he : expected cs = some r) : (parseRunes st (render cs)).2 = .ok r :=
+  parse_render_of_sim st cs (fun c h => stepSim_core _ c (hc c h)) r he
+
+/-- C13.2 `parse_render_props` (partial: every value kind except decimals; only the side on which the specification
+prescribes a result): additionally open and self-closing markers may carry the shorthand `[name=value]` and any number
+of properties whose values are integers (with leading zeros), `true` / `false` in any letter case, quoted strings with
+`\\"` and `\\\\` escapes, or bare words, with arbitrary Unicode white space in every slot; the attributes carry the
+typed values, a later property of the same name replacing an earlier one, and `trimwhitespace=<bool>` overrides the
+white space rule.
+MISSING for the full statement: decimal values (`parseFloat` = nearest double needs lemmas about `F64.roundQuot`) and
+the error side (integer beyond `int`, non-boolean `trimwhitespace`); both are covered by the `markup` stream. -/
+theorem parse_render_props_partial (st : ParserState) (cs : List Chunk) (hc : ∀ c ∈ cs, isPropsChunk c = true)
+    (r : ParseResult) (he : expected cs = some r) : (parseRunes st (render cs)).2 = .ok r :=
+  parse_render_of_sim st cs (fun c h => stepSim_props _ c (hc c h)) r he
+
+/-- and `TextForAttribute` returns the enclosed text -/
+theorem parse_render_props_text (st : ParserState) (cs : List Chunk) (hc : ∀ c ∈ cs, isPropsChunk c = true)
+    (r : ParseResult) (he : expected cs = some r) : ∀ a ∈ r.attrs, textForAttribute r a = .ok (enclosed r a) := by
+  intro a ha
+  have h := parse_render_props_partial st cs hc r he
+  have hp : parseRunes st (render cs) = ((parseRunes st (render cs)).1, .ok r) := by rw [← h]
+  exact textForAttribute_of_range r a (attributes_in_range st _ (render cs) r hp a ha)
 
 /-- C13.1, error side: when the specification prescribes an error (a close marker has nothing to close) the parser reports
 an error — it neither panics nor returns a result -/
@@ -260,10 +289,24 @@ example : expected [.text "a".toList, .close "b".toList []] = none := by decide 
 example : PlainChars "Zoé: a\\b ] \\".toList [] := by simp [PlainChars]
 example : ∀ c ∈ [Chunk.text " a ".toList, .escOpen, .text "é".toList, .escClose], isTextOrEsc c = true := by decide
 
+/-- a list with a shorthand value, every supported value kind, a repeated property name and `trimwhitespace`: the line
+`a [ b=⇥07 k="q\\"x" t=TRUE w=名 k=12]é[/b][s trimwhitespace=false/] z` -/
+def exampleProps : List Chunk :=
+  [.text "a ".toList,
+   .opn "b".toList (some (.int 1 7)) [("k".toList, .quoted "q\"x".toList), ("t".toList, .bool true "TRUE".toList),
+     ("w".toList, .bare "名".toList), ("k".toList, .int 0 12)] [" ".toList, [], "\t".toList],
+   .text "é".toList, .close "b".toList [],
+   .selfClose "s".toList none [("trimwhitespace".toList, .bool false "false".toList)] [], .text " z".toList]
+
+example : ∀ c ∈ exampleProps, isPropsChunk c = true := by decide +kernel
+example : (expected exampleProps).map (fun r => showAttrs r.attrs) =
+    some "b@2+1@2{b=i:7,k=i:12,t=b:true,w=s:\\u{540d}};s@3+0@40{trimwhitespace=b:false}" := by decide +kernel
+
 #print axioms parse_plain_text
 #print axioms parse_escaped_brackets
 #print axioms character_prefix
 #print axioms parse_render_core
+#print axioms parse_render_props_partial
 #print axioms parse_render_core_error
 #print axioms parse_render_core_text
 
